@@ -136,6 +136,46 @@ def naming_task(p, cfg, rec):
     elaborate_text(p, text)
 
 
+class ParamLeaf(py4hw.Logic):
+    """behavioural block with a module parameter (as in test/interactive/tb_Parameter.py)"""
+    def __init__(self, parent, name, a, r, n):
+        super().__init__(parent, name)
+        self.a = self.addIn('a', a)
+        self.r = self.addOut('r', r)
+        self.addParameter('N', n)
+
+    def propagate(self):
+        self.r.put(self.a.get() + self.getParameterValue('N'))
+
+
+class ParamBox(py4hw.Logic):
+    """structural block that hands its parameter down"""
+    def __init__(self, parent, name, a, r, n, depth):
+        super().__init__(parent, name)
+        self.addIn('a', a)
+        self.addOut('r', r)
+        self.addParameter('N', n)
+        if depth > 0:
+            ParamBox(self, 'inner', a, r, self.getParameter('N'), depth - 1)
+        else:
+            ParamLeaf(self, 'leaf', a, r, self.getParameter('N'))
+
+
+def param_task(p, cfg, rec):
+    """module parameters handed down through `depth` structural levels: the text must parse and resolve"""
+    with quiet():
+        s = py4hw.HWSystem()
+        a, r = s.wire('a', 8), s.wire('r', 8)
+        top = ParamBox(s, 'top', a, r, cfg['value'], cfg['depth'])
+    text, exc = generate(top)
+    if text is None:
+        p.res['refused'] += 1
+        p.note('%s: generator refused: %r' % (p.config, exc))
+        return
+    p.res['programs'] += 1
+    elaborate_text(p, text)
+
+
 def pathname_task(p, cfg, rec):
     """two objects of one class WITHOUT structureName (so each gets a per-instance module) at hierarchy paths whose instance
     names are built from the same characters: u_x/c and u/x_c, a/b_c/d and a_b/c_d ...; their interfaces differ, so any
@@ -310,6 +350,9 @@ def tasks_for(tier, seed):
         if paths[0][1] == '' or paths[1][1] == '':
             continue
         t.append(('hierarchy paths %s/%s and %s/%s of one per-instance class with different interfaces' % (paths[0] + paths[1]), pathname_task, {'paths': paths}))
+    for depth in (0, 1, 2):
+        for value in (3, 200):
+            t.append(('module parameter %d handed down through %d structural levels' % (value, depth), param_task, {'depth': depth, 'value': value}))
     # one configuration per listed naming finding, so that the quick tier exercises each of them
     for seq, names in ((True, ('x', 'y', 'r0', 'clk')), (True, ('clk', 'y', 'r0', 'x')), (True, ('module', 'y', 'r0', 'reserved_module')),
                        (False, ('reserved_module', 'x', 'b0', 'module')), (True, ('w_y', 'y', 'r0', 'x')), (True, ('x', 'y', 'r0', 'w_y')),
